@@ -143,6 +143,10 @@ pub struct WitnessSpec {
     pub promises: Vec<Option<u64>>,
     pub blind_seed: u64,
     pub seed_nonce: Option<u64>,
+    /// openings whose blinding vector is all zero (a legal boundary: with value 0 the commitment is
+    /// the identity element)
+    #[serde(default)]
+    pub zero_blind: Vec<usize>,
 }
 
 pub fn scalar_from_seed(tag: &str, seed: u64, i: u64) -> Scalar {
@@ -151,6 +155,9 @@ pub fn scalar_from_seed(tag: &str, seed: u64, i: u64) -> Scalar {
 
 impl WitnessSpec {
     pub fn blinding(&self, j: usize, k: usize) -> Scalar {
+        if self.zero_blind.contains(&j) {
+            return Scalar::ZERO;
+        }
         scalar_from_seed("blind", self.blind_seed, (j as u64) << 8 | k as u64)
     }
 
@@ -188,11 +195,25 @@ impl WitnessSpec {
             promises.push(p);
         }
         let seed_nonce = if allow_seed && cfg.m == 1 && rng.chance(1, 2) { Some(rng.next_u64()) } else { None };
+        let mut zero_blind = Vec::new();
+        if rng.chance(1, 10) {
+            // boundary: an opening with an all-zero blinding vector, half of the time with value 0
+            // (identity commitment), at a position biased to the last opening
+            let j = if rng.chance(1, 2) { cfg.m - 1 } else { rng.usize_below(cfg.m) };
+            zero_blind.push(j);
+            if rng.chance(1, 2) {
+                values[j] = 0;
+                if promises[j].is_some() {
+                    promises[j] = Some(0);
+                }
+            }
+        }
         WitnessSpec {
             values,
             promises,
             blind_seed: rng.next_u64(),
             seed_nonce,
+            zero_blind,
         }
     }
 }
